@@ -472,9 +472,10 @@ Proof.
       pose proof (hw_elems_word _ _ _ _ H6) as Ew. prj. exact Ew.
 Qed.
 
-(* THE point of the invariant: the lines returned by wb_into_lines hold every marker of the
+(* the point of the invariant WB: the lines returned by wb_into_lines hold every marker of the
    block (wb_flush leaves a current line that `is_empty` - no Str - where it is, and
-   wb_into_lines returns the finished lines only) *)
+   wb_into_lines returns the finished lines only).  flush_wrapping no longer calls
+   wb_into_lines (see into_lines_markers_m below); kept as a fact about wb_into_lines. *)
 Lemma into_lines_m b ls :
   wb_into_lines b = Ok ls -> WB b -> wword b = [] \/ word_is_empty (wword b) = false ->
   flat_map mline ls = pstream docp b.
@@ -495,14 +496,49 @@ Proof.
   destruct E as [E1 E2]. rewrite E1, E2. cbn [flat_map]. rewrite !app_nil_r. reflexivity.
 Qed.
 
+(* flush_wrapping now uses wb_into_lines_markers: the lines PLUS the elements left on the
+   unfinished last line (markers only: WrapInv.wb_into_lines_markers_no_content).  Together
+   they hold every marker of the block, and NO invariant is needed for that (neither WB nor
+   allow_overflow = false) *)
+Lemma into_lines_markers_m b ls mk :
+  wb_into_lines_markers b = Ok (ls, mk) -> wword b = [] \/ word_is_empty (wword b) = false ->
+  flat_map mline ls ++ mpend mk = pstream docp b.
+Proof.
+  unfold wb_into_lines_markers. intros H Hw. bind_inv H b1 H1. injection H as <- <-.
+  rewrite <- (wb_flush_stream docp docp_spacel b b1 H1).
+  unfold wb_flush in H1. bind_inv H1 b0 H0.
+  assert (Ew : wword b0 = []).
+  { destruct (flush_word_word _ _ _ H0) as [[A B]|A]; [|exact A].
+    destruct Hw as [Hw|Hw]; [congruence|congruence]. }
+  destruct (fl_kw _ _ H1) as [[_ E2] _]. rewrite Ew in E2.
+  unfold pstream, plines, mpend, pline. rewrite E2. cbn [flat_map]. rewrite app_nil_r. reflexivity.
+Qed.
+
 (* ================================================================== *)
 (* 4. Sub-renderer operations                                           *)
 (* ================================================================== *)
 
-(* the invariant of a sub-renderer: pending_frags holds markers only (RenderConserve.pfc),
-   overflow is not allowed, and the open block satisfies WB *)
+(* the invariant of a sub-renderer stated by c14_render_node_no_table: pending_frags holds
+   markers only (RenderConserve.pfc), overflow is not allowed, and the open block satisfies WB.
+   (Only the pfc part is still needed for the stream equations: see Jx below.) *)
 Definition J (s : subr) : Prop :=
   pfc s /\ o_allow_overflow (sopts s) = false /\ (forall w, wrapping s = Some w -> WB w).
+
+(* GENERIC INVARIANT.  Sections 4-6 are proved once for the invariant Jx x, x a boolean:
+     Jx true s  <-> J s      (overflow not allowed, open block satisfies WB: kept for the theorems
+                              that state J, c14_render_node_no_table ...)
+     Jx false s <-> pfc s    (nothing about overflow: the ..._any_overflow theorems).
+   Since flush_wrapping collects the markers of the unfinished line (into_lines_markers_m) the
+   STREAM equations need pfc only; the WB part is merely carried along when x = true. *)
+Section Inv.
+Variable x : bool.
+Definition ofx (s : subr) : Prop := x = true -> o_allow_overflow (sopts s) = false.
+Definition WBx (b : wblock) : Prop := x = true -> WB b.
+Definition Jx (s : subr) : Prop :=
+  pfc s /\ ofx s /\ (forall w, wrapping s = Some w -> WBx w).
+
+Lemma ofx_ext s s' : sopts s' = sopts s -> ofx s -> ofx s'.
+Proof. unfold ofx. intros ->. auto. Qed.
 
 Lemma mlines_app a b : mlines (a ++ b) = mlines a ++ mlines b.
 Proof. apply flat_map_app. Qed.
@@ -511,7 +547,7 @@ Proof. apply flat_map_app. Qed.
 Lemma mlines_RText ls : mlines (map RText ls) = flat_map mline ls.
 Proof. induction ls as [|l ls IH]; cbn [map mlines flat_map mrline]; [reflexivity|]. f_equal. exact IH. Qed.
 
-Lemma J_none s : pfc s -> o_allow_overflow (sopts s) = false -> wrapping s = None -> J s.
+Lemma Jx_none s : pfc s -> ofx s -> wrapping s = None -> Jx s.
 Proof. intros A B C. split; [exact A|]. split; [exact B|]. intros w E. rewrite C in E. discriminate. Qed.
 
 Lemma add_line_m s l :
@@ -540,13 +576,15 @@ Proof.
 Qed.
 
 Lemma take_frags_m w w1 frags :
-  take_trailing_fragments w = (w1, frags) -> WB w ->
-  WB w1 /\ (wword w1 = [] \/ word_is_empty (wword w1) = false) /\
+  take_trailing_fragments w = (w1, frags) ->
+  (WB w -> WB w1) /\ (wword w1 = [] \/ word_is_empty (wword w1) = false) /\
   pstream docp w = pstream docp w1 ++ mpend frags.
 Proof.
-  rewrite ttf_eq. intros H (Ho & Hl & Hs). injection H as <- <-.
-  pose proof Hs as Hs'. rewrite (tfr_app (wword w)) in Hs'. apply Forall_app in Hs'.
-  split; [split; [exact Ho|split; [exact Hl|exact (proj1 Hs')]]|]. split.
+  rewrite ttf_eq. intros H. injection H as <- <-.
+  split; [|split].
+  - intros (Ho & Hl & Hs).
+    pose proof Hs as Hs'. rewrite (tfr_app (wword w)) in Hs'. apply Forall_app in Hs'.
+    split; [exact Ho|split; [exact Hl|exact (proj1 Hs')]].
   - cbn [set_word wword]. destruct (word_is_empty (wword w)) eqn:E.
     + left. apply tfr_fst_nil_iff, E.
     + right. rewrite tfr_fst_empty. exact E.
@@ -554,29 +592,30 @@ Proof.
     rewrite (tfr_app (wword w)) at 1. rewrite flat_map_app, !app_assoc. reflexivity.
 Qed.
 
-Lemma flush_wrapping_m s s' : flush_wrapping s = Ok s' -> J s ->
-  J s' /\ mstream_out s' = mstream_out s /\ wrapping s' = None.
+Lemma flush_wrapping_m s s' : flush_wrapping s = Ok s' -> Jx s ->
+  Jx s' /\ mstream_out s' = mstream_out s /\ wrapping s' = None.
 Proof.
   intros H (Hp & Ho & Hw). pose proof (flush_wrapping_none _ _ H) as En.
   destruct (flush_wrapping_out _ _ H Hp) as (Hp' & _ & _).
   destruct (flush_wrapping_sames _ _ H) as [_ Eo].
-  split; [apply J_none; [exact Hp'|congruence|exact En]|]. split; [|exact En].
+  split; [apply Jx_none; [exact Hp'|exact (ofx_ext _ _ Eo Ho)|exact En]|]. split; [|exact En].
   unfold flush_wrapping in H. destruct (wrapping s) as [w|] eqn:Ew.
-  - destruct (take_trailing_fragments w) as [w1 frags] eqn:Et. bind_inv H ls Hls. ok_inv H.
-    destruct (take_frags_m _ _ _ Et (Hw w eq_refl)) as (Hb1 & Hw1 & Es).
+  - destruct (take_trailing_fragments w) as [w1 frags] eqn:Et. bind_inv H lm Hlm. ok_inv H.
+    destruct lm as [ls mk]. cbn [fst snd] in *.
+    destruct (take_frags_m _ _ _ Et) as (_ & Hw1 & Es).
     destruct (extend_lines_m (map RText ls) (set_wrapping s None)) as (A & B & _ & _).
     unfold mstream_out. sprj. rewrite B. sprj. cbn [mwrap]. rewrite app_nil_r, Ew. cbn [mwrap].
-    unfold mlp at 1. sprj. rewrite mpend_app, app_assoc.
+    unfold mlp at 1. sprj. rewrite !mpend_app, app_assoc.
     change (mlines (slines (extend_lines (set_wrapping s None) (map RText ls))) ++
             mpend (pending_frags (extend_lines (set_wrapping s None) (map RText ls))))
       with (mlp (extend_lines (set_wrapping s None) (map RText ls))).
-    rewrite A, mlines_RText, (into_lines_m _ _ Hls Hb1 Hw1), Es, <- app_assoc. reflexivity.
+    rewrite A, mlines_RText, Es, <- (into_lines_markers_m _ _ _ Hlm Hw1), <- !app_assoc. reflexivity.
   - ok_inv H. reflexivity.
 Qed.
 
 (* an operation appends the items t to the stream and nothing else *)
 Definition opM (f : subr -> res subr) (t : list sitem) : Prop :=
-  forall s s', f s = Ok s' -> J s -> J s' /\ mstream_out s' = mstream_out s ++ t.
+  forall s s', f s = Ok s' -> Jx s -> Jx s' /\ mstream_out s' = mstream_out s ++ t.
 
 Lemma opM_comp f g t u : opM f t -> opM g u -> opM (fun s => do s1 <- f s; g s1) (t ++ u).
 Proof.
@@ -594,7 +633,7 @@ Lemma opM_pure (g : subr -> subr) :
 Proof.
   intros Hg s s' H (Hp & Ho & Hw). ok_inv H. destruct (Hg s) as (a & b & c & e).
   split.
-  - split; [unfold pfc, pf_text in *; rewrite b; exact Hp|]. split; [congruence|].
+  - split; [unfold pfc, pf_text in *; rewrite b; exact Hp|]. split; [exact (ofx_ext _ _ e Ho)|].
     intros w E. apply Hw. congruence.
   - unfold mstream_out, mlp. rewrite a, b, c, app_nil_r. reflexivity.
 Qed.
@@ -605,17 +644,17 @@ Proof.
   rewrite app_nil_r. auto.
 Qed.
 
-Lemma J_set_abe s b : J s -> J (set_abe s b).
+Lemma Jx_set_abe s b : Jx s -> Jx (set_abe s b).
 Proof. intros (A & B & C). split; [exact A|]. split; [exact B|exact C]. Qed.
 Lemma mstream_set_abe s b : mstream_out (set_abe s b) = mstream_out s.
 Proof. reflexivity. Qed.
 
-Lemma add_line_none_m s l : J s -> wrapping s = None ->
-  J (add_line s l) /\ mstream_out (add_line s l) = mstream_out s ++ mrline l /\
+Lemma add_line_none_m s l : Jx s -> wrapping s = None ->
+  Jx (add_line s l) /\ mstream_out (add_line s l) = mstream_out s ++ mrline l /\
   wrapping (add_line s l) = None.
 Proof.
   intros (Hp & Ho & _) Hn. destruct (add_line_m s l) as (A & B & C & D).
-  split; [apply J_none; [auto|congruence|congruence]|]. split; [|congruence].
+  split; [apply Jx_none; [auto|exact (ofx_ext _ _ C Ho)|congruence]|]. split; [|congruence].
   unfold mstream_out. rewrite B, A, Hn. cbn [mwrap]. rewrite !app_nil_r. reflexivity.
 Qed.
 
@@ -624,18 +663,18 @@ Proof.
   intros s s' H Hj. unfold add_empty_line in H. bind_inv H s1 H1. ok_inv H.
   destruct (flush_wrapping_m _ _ H1 Hj) as (A & B & C).
   destruct (add_line_none_m s1 (RText tl_new) A C) as (A' & B' & _).
-  split; [apply J_set_abe, A'|]. rewrite mstream_set_abe, B', B. reflexivity.
+  split; [apply Jx_set_abe, A'|]. rewrite mstream_set_abe, B', B. reflexivity.
 Qed.
 
 Lemma start_block_opM : opM start_block [].
 Proof.
   intros s s' H Hj. unfold start_block in H. bind_inv H s1 H1. bind_inv H s2 H2. ok_inv H.
   destruct (flush_wrapping_opM _ _ H1 Hj) as [A B].
-  assert (C : J s2 /\ mstream_out s2 = mstream_out s1 ++ []).
+  assert (C : Jx s2 /\ mstream_out s2 = mstream_out s1 ++ []).
   { destruct (existsb rline_has_content (slines s1)).
     - apply add_empty_line_opM; assumption.
     - ok_inv H2. rewrite app_nil_r. auto. }
-  destruct C as [C D]. split; [apply J_set_abe, C|]. rewrite mstream_set_abe, D, B, !app_nil_r. reflexivity.
+  destruct C as [C D]. split; [apply Jx_set_abe, C|]. rewrite mstream_set_abe, D, B, !app_nil_r. reflexivity.
 Qed.
 
 Lemma new_line_hard_opM : opM new_line_hard [].
@@ -647,10 +686,11 @@ Proof.
   - apply add_empty_line_opM; assumption.
 Qed.
 
-Lemma WB_get s : J s -> WB (get_wrapping s).
+Lemma WB_get s : Jx s -> WBx (get_wrapping s).
 Proof.
-  intros (_ & Ho & Hw). unfold get_wrapping. destruct (wrapping s) as [w|] eqn:E; [apply Hw; reflexivity|].
-  rewrite Ho. apply WB_new.
+  intros (_ & Ho & Hw) Hx. unfold get_wrapping.
+  destruct (wrapping s) as [w|] eqn:E; [apply (Hw w); [reflexivity|exact Hx]|].
+  rewrite (Ho Hx). apply WB_new.
 Qed.
 Lemma mwrap_get s : pstream docp (get_wrapping s) = mwrap (wrapping s).
 Proof. unfold get_wrapping, mwrap. destruct (wrapping s); reflexivity. Qed.
@@ -666,13 +706,13 @@ Proof.
   { ok_inv H. apply andb_true_iff in Ec. destruct Ec as [_ Ea]. unfold mchars.
     rewrite (all_ws_doc_chars _ Ea). cbn [map]. rewrite app_nil_r. auto. }
   bind_inv H s1 H1.
-  assert (B : J s1 /\ mstream_out s1 = mstream_out s ++ []).
+  assert (B : Jx s1 /\ mstream_out s1 = mstream_out s ++ []).
   { destruct (at_block_end s).
     - apply start_block_opM; assumption.
     - ok_inv H1. rewrite app_nil_r. auto. }
   destruct B as [B1 B2]. rewrite app_nil_r in B2.
   bind_inv H w1 Hw1. ok_inv H.
-  pose proof (wb_add_text_WB _ _ _ _ _ _ Hw1 (WB_get _ B1)) as Hb.
+  assert (Hb : WBx w1) by (intros Hx; exact (wb_add_text_WB _ _ _ _ _ _ Hw1 (WB_get _ B1 Hx))).
   apply (add_text_stream docp docp_spacel) in Hw1.
   rewrite pchars_kept in Hw1. unfold mchars in Hw1. rewrite doc_chars_filters, mwrap_get in Hw1.
   destruct B1 as (P1 & O1 & W1). split.
@@ -693,20 +733,20 @@ Qed.
 Lemma end_deco_opM d e : opM (fun s => end_deco d s e) (mchars e).
 Proof. unfold end_deco. exact (opM_comp0r _ _ _ (add_inline_text_opM d e) pop_ann_opM). Qed.
 
-Lemma J_set_filter s n : J s -> J (set_filter s n).
+Lemma Jx_set_filter s n : Jx s -> Jx (set_filter s n).
 Proof. intros (A & B & C). split; [exact A|]. split; [exact B|exact C]. Qed.
 
 Lemma start_strikeout_opM d : opM (start_strikeout d) (mchars (fst (d_strike_start d))).
 Proof.
   unfold start_strikeout. apply opM_comp0r; [apply (start_deco_opM d)|].
   intros s s' H Hj. ok_inv H. rewrite app_nil_r.
-  destruct (o_strike (sopts s)); [split; [apply J_set_filter, Hj|reflexivity]|auto].
+  destruct (o_strike (sopts s)); [split; [apply Jx_set_filter, Hj|reflexivity]|auto].
 Qed.
 Lemma end_strikeout_opM d : opM (end_strikeout d) (mchars (d_strike_end d)).
 Proof.
   unfold end_strikeout. apply opM_comp0; [|apply (end_deco_opM d)].
   intros s s' H Hj. rewrite app_nil_r. destruct (o_strike (sopts s)).
-  - destruct (filter_depth s); [discriminate|]. ok_inv H. split; [apply J_set_filter, Hj|reflexivity].
+  - destruct (filter_depth s); [discriminate|]. ok_inv H. split; [apply Jx_set_filter, Hj|reflexivity].
   - ok_inv H. auto.
 Qed.
 
@@ -722,7 +762,7 @@ Lemma record_frag_start_opM name : opM (fun s => Ok (record_frag_start s name)) 
 Proof.
   intros s s' H Hj. ok_inv H. pose proof (WB_get _ Hj) as Hb. destruct Hj as (Hp & Ho & Hw). split.
   - split; [exact Hp|]. split; [exact Ho|]. intros w E. unfold record_frag_start in E. sprj.
-    injection E as <-. apply WB_add_frag, Hb.
+    injection E as <-. intros Hx. apply WB_add_frag, Hb, Hx.
   - unfold record_frag_start, mstream_out, mlp. sprj. cbn [mwrap].
     rewrite add_frag_stream, mwrap_get, !app_assoc. reflexivity.
 Qed.
@@ -784,7 +824,7 @@ Lemma projr_mpend pf : projr (mpend pf) = filter docp (flat_map elem_text pf).
 Proof. apply projr_flat_pel. Qed.
 
 (* the lines of a sub-renderer: its stream without the markers that are still waiting *)
-Lemma sub_into_lines_m s ls : sub_into_lines s = Ok ls -> J s ->
+Lemma sub_into_lines_m s ls : sub_into_lines s = Ok ls -> Jx s ->
   exists waiting, mstream_out s = mlines ls ++ waiting /\ projr waiting = [].
 Proof.
   intros H Hj. unfold sub_into_lines in H. bind_inv H s1 H1. ok_inv H.
@@ -797,8 +837,8 @@ Qed.
 (* append_subrender: the stream of the lines of the nested sub-renderer is appended; the
    markers still waiting in it (recorded after its last text line) are DROPPED *)
 Lemma append_subrender_m s sub first rest s' :
-  append_subrender s sub first rest = Ok s' -> J s -> J sub -> nodoc first -> nodoc rest ->
-  J s' /\ exists kept_ waiting, mstream_out s' = mstream_out s ++ kept_ /\
+  append_subrender s sub first rest = Ok s' -> Jx s -> Jx sub -> nodoc first -> nodoc rest ->
+  Jx s' /\ exists kept_ waiting, mstream_out s' = mstream_out s ++ kept_ /\
                                 mstream_out sub = kept_ ++ waiting /\ projr waiting = [].
 Proof.
   intros H Hj Hsub Hf Hr. unfold append_subrender in H.
@@ -806,19 +846,19 @@ Proof.
   destruct (flush_wrapping_m _ _ H1 Hj) as ((P1 & O1 & _) & B & C).
   destruct (extend_lines_m (attach_prefixes (ann_stack s1) first rest ols) s1) as (A' & B' & C' & D').
   destruct (sub_into_lines_m _ _ Hols Hsub) as (waiting & Ew & Hw).
-  split; [apply J_none; [auto|congruence|congruence]|].
+  split; [apply Jx_none; [auto|exact (ofx_ext _ _ C' O1)|congruence]|].
   exists (mlines ols), waiting. split; [|split; assumption].
   unfold mstream_out at 1. rewrite B', C, A'. cbn [mwrap]. rewrite app_nil_r.
   rewrite (attach_prefixes_m _ _ _ _ Hf Hr), <- B.
   unfold mstream_out at 1. rewrite C. cbn [mwrap]. rewrite app_nil_r. reflexivity.
 Qed.
 
-Lemma J_new s w : J s -> J (new_sub_renderer s w).
-Proof. intros (_ & Ho & _). apply J_none; [reflexivity|exact Ho|reflexivity]. Qed.
+Lemma Jx_new s w : Jx s -> Jx (new_sub_renderer s w).
+Proof. intros (_ & Ho & _). apply Jx_none; [reflexivity|exact Ho|reflexivity]. Qed.
 Lemma mstream_new s w : mstream_out (new_sub_renderer s w) = [].
 Proof. reflexivity. Qed.
-Lemma J_sub_new w o : o_allow_overflow o = false -> J (sub_new w o).
-Proof. intros Ho. apply J_none; [reflexivity|exact Ho|reflexivity]. Qed.
+Lemma Jx_sub_new w o : (x = true -> o_allow_overflow o = false) -> Jx (sub_new w o).
+Proof. intros Ho. apply Jx_none; [reflexivity|exact Ho|reflexivity]. Qed.
 
 (* ================================================================== *)
 (* 5. The stream of a render tree                                       *)
@@ -887,7 +927,7 @@ Section Thread.
   Definition Cm (st st' : rstate) (l h : list sitem) : Prop :=
     forall s rest, stack st = s :: rest ->
       exists s', stack st' = s' :: rest /\
-        (J s -> J s' /\ exists t, mstream_out s' = mstream_out s ++ t /\ btw l t h).
+        (Jx s -> Jx s' /\ exists t, mstream_out s' = mstream_out s ++ t /\ btw l t h).
 
   Lemma Cm_stack_eq st st' : stack st' = stack st -> Cm st st' [] [].
   Proof.
@@ -1037,7 +1077,7 @@ Section Thread.
     destruct (Hmid s rest eq_refl) as (s3' & E3 & K3).
     destruct (with_top_inv _ _ _ Hap) as (s0 & rest0 & s4 & Es0 & Ef & ->).
     rewrite E3 in Es0. injection Es0 as <- <-. exists s4. split; [reflexivity|].
-    intros Hj. destruct (K (J_new _ _ Hj)) as (Jsub & t & St & Bt).
+    intros Hj. destruct (K (Jx_new _ _ Hj)) as (Jsub & t & St & Bt).
     rewrite mstream_new in St. cbn [app] in St.
     destruct (K3 Hj) as (J3 & t0 & S0 & [_ B0]). apply msub_nil_r in B0. subst t0.
     rewrite app_nil_r in S0.
@@ -1245,28 +1285,71 @@ Section Thread.
                  (start_deco_opM d (d_sup_start d)) (end_deco_opM d (d_sup_end d)) IH Hk H).
   Qed.
 End Thread.
+End Inv.
+
+(* the two instances of the generic invariant *)
+Lemma J_Jx s : J s <-> Jx true s.
+Proof.
+  unfold J, Jx, ofx, WBx. split.
+  - intros (A & B & C). split; [exact A|]. split; [intros _; exact B|]. intros w E _. apply C, E.
+  - intros (A & B & C). split; [exact A|]. split; [exact (B eq_refl)|].
+    intros w E. exact (C w E eq_refl).
+Qed.
+Lemma pfc_Jx s : pfc s <-> Jx false s.
+Proof.
+  unfold Jx, ofx, WBx. split.
+  - intros A. split; [exact A|]. split; [discriminate|]. intros w _. discriminate.
+  - intros [A _]. exact A.
+Qed.
 
 (* ================================================================== *)
 (* 7. MAIN THEOREMS                                                     *)
 (* ================================================================== *)
 
 (* TABLE-FREE TREES, render_node: every decorator with renderer-made prefixes, every width,
-   every white-space mode, every state whose top sub-renderer satisfies J (overflow not
-   allowed).  The top sub-renderer receives a stream t with
+   every white-space mode, every state whose top sub-renderer satisfies the invariant (Jx x:
+   J - overflow not allowed - for x = true, pfc alone for x = false).  The top sub-renderer
+   receives a stream t with
         mstream_min d n  <=  t  <=  mstream_tree d n        (<= : msub, markers deleted)
    i.e. all visible document characters in document order, every marker of mstream_min, no
    marker that is not in the tree, none moved across a character or another marker. *)
+Theorem c14_render_node_gen : forall x d mw n st st' s rest,
+  prefix_made d -> no_table n = true -> stack st = s :: rest -> Jx x s ->
+  render_node d mw n st = Ok st' ->
+  exists s' t, stack st' = s' :: rest /\ Jx x s' /\ mstream_out s' = mstream_out s ++ t /\
+               msub (mstream_min d n) t /\ msub t (mstream_tree d n).
+Proof.
+  intros x d mw n st st' s rest Hd Hn Es Hj H.
+  destruct (node_cm_all x d mw Hd n st st' Hn H s rest Es) as (s' & E' & K).
+  destruct (K Hj) as (Hj' & t & St & B1 & B2). exists s', t. auto.
+Qed.
+
 Theorem c14_render_node_no_table : forall d mw n st st' s rest,
   prefix_made d -> no_table n = true -> stack st = s :: rest -> J s ->
   render_node d mw n st = Ok st' ->
   exists s' t, stack st' = s' :: rest /\ J s' /\ mstream_out s' = mstream_out s ++ t /\
                msub (mstream_min d n) t /\ msub t (mstream_tree d n).
 Proof.
-  intros d mw n st st' s rest Hd Hn Es Hj H.
-  destruct (node_cm_all d mw Hd n st st' Hn H s rest Es) as (s' & E' & K).
-  destruct (K Hj) as (Hj' & t & St & B1 & B2). exists s', t. auto.
+  intros d mw n st st' s rest Hd Hn Es Hj H. apply J_Jx in Hj.
+  destruct (c14_render_node_gen true d mw n st st' s rest Hd Hn Es Hj H)
+    as (s' & t & A & B & C). exists s', t. split; [exact A|]. split; [apply J_Jx, B|exact C].
 Qed.
 Print Assumptions c14_render_node_no_table.
+
+(* NEW (since flush_wrapping collects the markers left on the unfinished line): the same for
+   ANY overflow setting, the only invariant left being RenderConserve.pfc (pending_frags
+   holds markers only) *)
+Theorem c14_render_node_no_table_any_overflow : forall d mw n st st' s rest,
+  prefix_made d -> no_table n = true -> stack st = s :: rest -> pfc s ->
+  render_node d mw n st = Ok st' ->
+  exists s' t, stack st' = s' :: rest /\ pfc s' /\ mstream_out s' = mstream_out s ++ t /\
+               msub (mstream_min d n) t /\ msub t (mstream_tree d n).
+Proof.
+  intros d mw n st st' s rest Hd Hn Es Hj H. apply pfc_Jx in Hj.
+  destruct (c14_render_node_gen false d mw n st st' s rest Hd Hn Es Hj H)
+    as (s' & t & A & B & C). exists s', t. split; [exact A|]. split; [apply pfc_Jx, B|exact C].
+Qed.
+Print Assumptions c14_render_node_no_table_any_overflow.
 
 (* ---- the footnote list adds neither markers nor visible document characters ---- *)
 Lemma nodoc_cons c t : nodoc (c :: t) <-> docp c = false /\ nodoc t.
@@ -1357,21 +1440,21 @@ Proof.
 Qed.
 
 (* render_tree = render_node into a fresh sub-renderer, then (maybe) the footnote list *)
-Lemma render_tree_body_m d mw o width tree s :
+Lemma render_tree_body_m x d mw o width tree s :
   render_tree d mw o width tree = Ok s ->
   exists st body,
     render_node d mw tree (mkrst [sub_new width o] []) = Ok st /\ stack st = [body] /\
-    (J body -> J s /\ mstream_out s = mstream_out body).
+    (Jx x body -> Jx x s /\ mstream_out s = mstream_out body).
 Proof.
   intros H. destruct (render_tree_footnotes d mw o width tree s H) as (st & body & A & B & _ & _ & _ & F).
   exists st, body. split; [exact A|]. split; [exact B|]. intros Hj.
   destruct (if o_footnotes o then link_targets d mw o tree width else []) as [|u L'].
   - subst s. auto.
-  - destruct F as (b1 & Hb1 & ->). destruct (start_block_opM _ _ Hb1 Hj) as [(P1 & O1 & W1) E1].
+  - destruct F as (b1 & Hb1 & ->). destruct (start_block_opM x _ _ Hb1 Hj) as [(P1 & O1 & W1) E1].
     rewrite app_nil_r in E1. pose proof (start_block_none _ _ Hb1) as En.
     destruct (fmt_links_m (finalise_from 1 (link_targets d mw o tree width)) b1
                 (finalise_entries_made _ 1)) as (A2 & B2 & C2 & D2).
-    split; [apply J_none; [auto|congruence|congruence]|].
+    split; [apply Jx_none; [auto|exact (ofx_ext x _ _ C2 O1)|congruence]|].
     rewrite <- E1. unfold mstream_out. rewrite A2, B2. reflexivity.
 Qed.
 
@@ -1379,6 +1462,25 @@ Qed.
    last text line: no visible document character follows them in the whole document) are
    dropped by sub_into_lines - or, when a footnote list follows, attached to its first line
    (both allowed by `btw`: they are not in strip (mstream_min ...)). *)
+Theorem c14_render_tree_gen : forall x d mw o width tree s,
+  prefix_made d -> (x = true -> o_allow_overflow o = false) -> no_table tree = true ->
+  render_tree d mw o width tree = Ok s ->
+  btw (mstream_min d tree) (mstream_out s) (mstream_tree d tree) /\
+  forall ls, sub_into_lines s = Ok ls ->
+             btw (strip (mstream_min d tree)) (mlines ls) (mstream_tree d tree).
+Proof.
+  intros x d mw o width tree s Hd Ho Hn H.
+  destruct (render_tree_body_m x _ _ _ _ _ _ H) as (st & body & A & B & C).
+  destruct (c14_render_node_gen x d mw tree (mkrst [sub_new width o] []) st (sub_new width o) []
+              Hd Hn eq_refl (Jx_sub_new x width o Ho) A) as (s' & t & E1 & Hj & St & B1 & B2).
+  rewrite B in E1. injection E1 as <-. destruct (C Hj) as [Js Es].
+  assert (Hb : btw (mstream_min d tree) (mstream_out s) (mstream_tree d tree)).
+  { rewrite Es, St. split; assumption. }
+  split; [exact Hb|]. intros ls Hls.
+  destruct (sub_into_lines_m x _ _ Hls Js) as (waiting & Ew & Hw).
+  exact (btw_cut _ _ _ _ _ Hb Ew Hw).
+Qed.
+
 Theorem c14_render_tree_no_table : forall d mw o width tree s,
   prefix_made d -> o_allow_overflow o = false -> no_table tree = true ->
   render_tree d mw o width tree = Ok s ->
@@ -1387,17 +1489,22 @@ Theorem c14_render_tree_no_table : forall d mw o width tree s,
              btw (strip (mstream_min d tree)) (mlines ls) (mstream_tree d tree).
 Proof.
   intros d mw o width tree s Hd Ho Hn H.
-  destruct (render_tree_body_m _ _ _ _ _ _ H) as (st & body & A & B & C).
-  destruct (c14_render_node_no_table d mw tree (mkrst [sub_new width o] []) st (sub_new width o) []
-              Hd Hn eq_refl (J_sub_new width o Ho) A) as (s' & t & E1 & Hj & St & B1 & B2).
-  rewrite B in E1. injection E1 as <-. destruct (C Hj) as [Js Es].
-  assert (Hb : btw (mstream_min d tree) (mstream_out s) (mstream_tree d tree)).
-  { rewrite Es, St. split; assumption. }
-  split; [exact Hb|]. intros ls Hls.
-  destruct (sub_into_lines_m _ _ Hls Js) as (waiting & Ew & Hw).
-  exact (btw_cut _ _ _ _ _ Hb Ew Hw).
+  exact (c14_render_tree_gen true d mw o width tree s Hd (fun _ => Ho) Hn H).
 Qed.
 Print Assumptions c14_render_tree_no_table.
+
+(* NEW: the same without the hypothesis o_allow_overflow o = false *)
+Theorem c14_render_tree_no_table_any_overflow : forall d mw o width tree s,
+  prefix_made d -> no_table tree = true ->
+  render_tree d mw o width tree = Ok s ->
+  btw (mstream_min d tree) (mstream_out s) (mstream_tree d tree) /\
+  forall ls, sub_into_lines s = Ok ls ->
+             btw (strip (mstream_min d tree)) (mlines ls) (mstream_tree d tree).
+Proof.
+  intros d mw o width tree s Hd Hn H.
+  refine (c14_render_tree_gen false d mw o width tree s Hd _ Hn H). discriminate.
+Qed.
+Print Assumptions c14_render_tree_no_table_any_overflow.
 
 Lemma mline_into_tagged r : mline (rline_into_tagged r) = mrline r.
 Proof.
@@ -1407,21 +1514,43 @@ Proof.
 Qed.
 
 (* the public route: the annotated lines returned by lines_from_read *)
+Theorem c14_lines_from_read_gen : forall x ist dr (c : config) doc width tree tls,
+  prefix_made (c_deco c) -> (x = true -> c_overflow c = false) ->
+  to_render_tree ist dr c doc = Ok tree -> no_table tree = true ->
+  lines_from_read ist dr c doc width = Ok tls ->
+  btw (strip (mstream_min (c_deco c) tree)) (flat_map mline tls) (mstream_tree (c_deco c) tree).
+Proof.
+  intros x ist dr c doc width tree tls Hd Ho Ht Hn H. unfold lines_from_read in H. rewrite Ht in H.
+  cbn [bind] in H. bind_inv H s Hs. unfold render_with_context in Hs.
+  destruct (width =? 0); [discriminate|]. bind_inv H ls Hls. ok_inv H.
+  rewrite flat_map_concat_map, map_map, <- flat_map_concat_map.
+  rewrite (flat_map_ext _ _ mline_into_tagged).
+  exact (proj2 (c14_render_tree_gen x (c_deco c) (c_min_wrap c) (render_options c) width tree s
+                  Hd Ho Hn Hs) ls Hls).
+Qed.
+
 Theorem c14_lines_from_read : forall ist dr (c : config) doc width tree tls,
   prefix_made (c_deco c) -> c_overflow c = false ->
   to_render_tree ist dr c doc = Ok tree -> no_table tree = true ->
   lines_from_read ist dr c doc width = Ok tls ->
   btw (strip (mstream_min (c_deco c) tree)) (flat_map mline tls) (mstream_tree (c_deco c) tree).
 Proof.
-  intros ist dr c doc width tree tls Hd Ho Ht Hn H. unfold lines_from_read in H. rewrite Ht in H.
-  cbn [bind] in H. bind_inv H s Hs. unfold render_with_context in Hs.
-  destruct (width =? 0); [discriminate|]. bind_inv H ls Hls. ok_inv H.
-  rewrite flat_map_concat_map, map_map, <- flat_map_concat_map.
-  rewrite (flat_map_ext _ _ mline_into_tagged).
-  exact (proj2 (c14_render_tree_no_table (c_deco c) (c_min_wrap c) (render_options c) width tree s
-                  Hd Ho Hn Hs) ls Hls).
+  intros ist dr c doc width tree tls Hd Ho.
+  exact (c14_lines_from_read_gen true ist dr c doc width tree tls Hd (fun _ => Ho)).
 Qed.
 Print Assumptions c14_lines_from_read.
+
+(* NEW: the same without the hypothesis c_overflow c = false *)
+Theorem c14_lines_from_read_any_overflow : forall ist dr (c : config) doc width tree tls,
+  prefix_made (c_deco c) ->
+  to_render_tree ist dr c doc = Ok tree -> no_table tree = true ->
+  lines_from_read ist dr c doc width = Ok tls ->
+  btw (strip (mstream_min (c_deco c) tree)) (flat_map mline tls) (mstream_tree (c_deco c) tree).
+Proof.
+  intros ist dr c doc width tree tls Hd.
+  refine (c14_lines_from_read_gen false ist dr c doc width tree tls Hd _). discriminate.
+Qed.
+Print Assumptions c14_lines_from_read_any_overflow.
 
 (* ================================================================== *)
 (* 8. The property in its own words                                     *)
@@ -1472,7 +1601,8 @@ Proof.
   exfalso. apply Hb. apply app_eq_nil in E. destruct E as [_ E]. rewrite <- strip_projr, E. reflexivity.
 Qed.
 
-(* For a table-free document rendered through lines_from_read without overflow, with O the
+(* For a table-free document rendered through lines_from_read (without overflow; with any
+   overflow setting: c14_markers_any_overflow below), with O the
    stream of the annotated output lines and T the stream of the render tree:
    (1) the visible document characters of O are those of T (the markers change nothing);
    (2) every marker of the output is a marker of the tree, with exactly the visible document
@@ -1482,6 +1612,24 @@ Qed.
        visible document characters before it and behind it;
    (4) if the ids of the tree are distinct, so are the markers of the output (none duplicated:
        with (3), such a marker occurs exactly once). *)
+Lemma markers_of_btw (M O T : list sitem) :
+  btw M O T ->
+  projr O = projr T /\
+  (forall a name b, O = a ++ inl name :: b ->
+     exists a' b', T = a' ++ inl name :: b' /\ projr a' = projr a /\ projr b' = projr b) /\
+  (forall a name b, M = a ++ inl name :: b ->
+     exists a' b', O = a' ++ inl name :: b' /\ projr a' = projr a /\ projr b' = projr b) /\
+  (NoDup (projl T) -> NoDup (projl O)).
+Proof.
+  intros [B1 B2].
+  split; [exact (msub_projr _ _ B2)|]. split; [|split].
+  - intros a name b E. destruct (msub_split _ _ B2 a (inl name) b E) as (a' & b' & E' & Ha & Hb).
+    exists a', b'. split; [exact E'|]. split; symmetry; apply msub_projr; assumption.
+  - intros a name b E. destruct (msub_split _ _ B1 a (inl name) b E) as (a' & b' & E' & Ha & Hb).
+    exists a', b'. split; [exact E'|]. split; symmetry; apply msub_projr; assumption.
+  - apply msub_projl_nodup, B2.
+Qed.
+
 Corollary c14_markers : forall ist dr (c : config) doc width tree tls,
   prefix_made (c_deco c) -> c_overflow c = false ->
   to_render_tree ist dr c doc = Ok tree -> no_table tree = true ->
@@ -1497,15 +1645,29 @@ Corollary c14_markers : forall ist dr (c : config) doc width tree tls,
   (NoDup (projl T) -> NoDup (projl O)).
 Proof.
   intros ist dr c doc width tree tls Hd Ho Ht Hn H O T M.
-  destruct (c14_lines_from_read _ _ _ _ _ _ _ Hd Ho Ht Hn H) as [B1 B2]. fold O T M in B1, B2.
-  split; [exact (msub_projr _ _ B2)|]. split; [|split].
-  - intros a name b E. destruct (msub_split _ _ B2 a (inl name) b E) as (a' & b' & E' & Ha & Hb).
-    exists a', b'. split; [exact E'|]. split; symmetry; apply msub_projr; assumption.
-  - intros a name b E. destruct (msub_split _ _ B1 a (inl name) b E) as (a' & b' & E' & Ha & Hb).
-    exists a', b'. split; [exact E'|]. split; symmetry; apply msub_projr; assumption.
-  - apply msub_projl_nodup, B2.
+  exact (markers_of_btw M O T (c14_lines_from_read _ _ _ _ _ _ _ Hd Ho Ht Hn H)).
 Qed.
 Print Assumptions c14_markers.
+
+(* NEW: the same without the hypothesis c_overflow c = false *)
+Corollary c14_markers_any_overflow : forall ist dr (c : config) doc width tree tls,
+  prefix_made (c_deco c) ->
+  to_render_tree ist dr c doc = Ok tree -> no_table tree = true ->
+  lines_from_read ist dr c doc width = Ok tls ->
+  let O := flat_map mline tls in
+  let T := mstream_tree (c_deco c) tree in
+  let M := strip (mstream_min (c_deco c) tree) in
+  projr O = projr T /\
+  (forall a name b, O = a ++ inl name :: b ->
+     exists a' b', T = a' ++ inl name :: b' /\ projr a' = projr a /\ projr b' = projr b) /\
+  (forall a name b, M = a ++ inl name :: b ->
+     exists a' b', O = a' ++ inl name :: b' /\ projr a' = projr a /\ projr b' = projr b) /\
+  (NoDup (projl T) -> NoDup (projl O)).
+Proof.
+  intros ist dr c doc width tree tls Hd Ht Hn H O T M.
+  exact (markers_of_btw M O T (c14_lines_from_read_any_overflow _ _ _ _ _ _ _ Hd Ht Hn H)).
+Qed.
+Print Assumptions c14_markers_any_overflow.
 
 (* the characters of mstream_tree are RenderConserve.doc_stream (property C03) *)
 Lemma projr_mchars t : projr (mchars t) = doc_chars t.
@@ -1744,46 +1906,95 @@ Example marker_kept_after_overflowing_char_from_html :
     Ok (true, [inr 19990; inl [120]; inr 97; inr 98; inr 99]).
 Proof. split; vm_compute; reflexivity. Qed.
 
-(* ---- REMAINING FINDING (confirmed on the implementation with the harness probe
-     h2t-harness one 1 1 0 '<div>世<span id="x"> <p>abc</p></span></div>' overflow :
-     lines [世] [] [a] [b] [c] without Frag x; with 'A' instead of '世': [A <x>] [] [a] [b] [c]):
-   marker_lost_after_overflowing_char_and_space.  The repair covers the markers still in the
-   pending word when the block is flushed.  When white space follows the marker
+(* ---- REPAIRED FINDING marker_lost_after_overflowing_char_and_space (probe
+     h2t-harness one 1 1 0 '<div>世<span id="x"> <p>abc</p></span></div>' overflow  used to give
+     lines [世] [] [a] [b] [c] without Frag x; with 'A' instead of '世': [A <x>] [] [a] [b] [c]).
+   The first repair (take_trailing_fragments) covers the markers still in the pending word when
+   the block is flushed.  When white space follows the marker
    ( <div>世<span id="x"> <p>abc</p></span></div> , width 1, overflow allowed) the space makes
    add_char call flush_word on the word [Str "世"; Frag x] BEFORE the block ends: the hard-wrap
-   path again leaves Frag x alone on the current line, the word is empty, so
-   take_trailing_fragments has nothing to take, wb_flush's flush_line does not flush a line
-   that `is_empty`, and wb_into_lines throws the marker away although "abc" follows.
-   This is why the theorems still need o_allow_overflow = false (invariant WB: the current
-   line is never marker-only; hw_scan_rest: without overflow hw_scan never takes the whole
-   piece). ---- *)
+   path leaves Frag x alone on the current line, the word is empty, so take_trailing_fragments
+   has nothing to take, wb_flush's flush_line does not flush a line that `is_empty`, and
+   wb_into_lines returned the finished lines only: the marker was thrown away although "abc"
+   follows.
+   Now flush_wrapping calls wb_into_lines_markers, which also returns the elements left on that
+   unfinished last line (markers only), and puts them into pending_frags in front of the
+   trailing markers of the word: add_line attaches them to the next text line (here the empty
+   line start_block puts between the blocks), exactly where the marker of the variant without
+   the space goes.  With that the stream equation of flush_wrapping (flush_wrapping_m) needs no
+   invariant of the wrapping block any more, and the main theorems hold for every overflow
+   setting (the ..._any_overflow theorems of section 7). ---- *)
 Definition fx3 (c : chr) : rnode :=
   cx_n (IContainer [cx_n (IText [c]); fx_fr [120]; cx_t 18 [32]; cx_n (IBlock [cx_t 20 [97;98;99]])]).
 Definition fx_dom3 : list node :=
   [ fx_el [100;105;118] [] [NText [fx_wide 16];
       fx_el fx_span [120] [NText (Al 18 [32]); fx_el [112] [] [NText (Al 20 [97;98;99])]]] ].
-Example marker_lost_after_overflowing_char_and_space :
+Example marker_kept_after_overflowing_char_and_space :
   (* the marker x has visible content behind it ... *)
   fx_sh (strip (mstream_min plain_deco (fx3 (fx_wide 16)))) = [inr 19990; inl [120]; inr 97; inr 98; inr 99] /\
-  (* ... but is not in the output *)
+  (* ... and is in the output, between the wide character and "abc" (on the line that
+     separates the blocks, like in marker_kept_after_overflowing_char) *)
   fx_lines (render_tree plain_deco 3 fx_oo 1 (fx3 (fx_wide 16))) =
-    Ok [[inr [19990]]; []; [inr [97]]; [inr [98]]; [inr [99]]] /\
-  (* with a character that fits it is (at the end of the line of that character) *)
+    Ok [[inr [19990]]; [inl [120]]; [inr [97]]; [inr [98]]; [inr [99]]] /\
+  fx_out (render_tree plain_deco 3 fx_oo 1 (fx3 (fx_wide 16))) =
+    Ok [inr 19990; inl [120]; inr 97; inr 98; inr 99] /\
+  (* with a character that fits it is at the end of the line of that character, as before *)
   fx_lines (render_tree plain_deco 3 fx_oo 1 (fx3 (mkchr 65 (Some 1) false 16))) =
     Ok [[inr [65]; inl [120]]; []; [inr [97]]; [inr [98]]; [inr [99]]] /\
   (* the same from HTML *)
   (do ls <- lines_from_read cx_ist cx_dr (set_overflow cfg_plain) fx_dom3 1; Ok (map show_line ls)) =
-    Ok [[inr [19990]]; []; [inr [97]]; [inr [98]]; [inr [99]]] /\
+    Ok [[inr [19990]]; [inl [120]]; [inr [97]]; [inr [98]]; [inr [99]]] /\
   (do t <- to_render_tree cx_ist cx_dr (set_overflow cfg_plain) fx_dom3;
    Ok (no_table t, fx_sh (strip (mstream_min plain_deco t)))) =
     Ok (true, [inr 19990; inl [120]; inr 97; inr 98; inr 99]).
 Proof. repeat split; vm_compute; reflexivity. Qed.
 
+(* non-vacuity of the ..._any_overflow theorems: they apply to these two documents with
+   overflow ALLOWED (o_allow_overflow fx_oo = true, so the theorems that assume overflow off do
+   not), the render succeeds, and the lower bound contains the marker x *)
+Example fx3_any_overflow_hyps :
+  o_allow_overflow fx_oo = true /\ c_overflow (set_overflow cfg_plain) = true /\
+  no_table (fx3 (fx_wide 16)) = true /\
+  (exists s, render_tree plain_deco 3 fx_oo 1 (fx3 (fx_wide 16)) = Ok s) /\
+  In (inl (of_ascii [120])) (strip (mstream_min plain_deco (fx3 (fx_wide 16)))).
+Proof.
+  split; [reflexivity|]. split; [reflexivity|]. split; [reflexivity|].
+  split; [eexists; vm_compute; reflexivity|]. vm_compute. right. left. reflexivity.
+Qed.
+
+Example fx3_any_overflow_theorem : forall s ls,
+  render_tree plain_deco 3 fx_oo 1 (fx3 (fx_wide 16)) = Ok s -> sub_into_lines s = Ok ls ->
+  btw (strip (mstream_min plain_deco (fx3 (fx_wide 16)))) (mlines ls)
+      (mstream_tree plain_deco (fx3 (fx_wide 16))).
+Proof.
+  intros s ls H Hls.
+  exact (proj2 (c14_render_tree_no_table_any_overflow plain_deco 3 fx_oo 1 (fx3 (fx_wide 16)) s
+                  prefix_made_plain eq_refl H) ls Hls).
+Qed.
+
+Example fx_dom3_any_overflow_theorem : forall tree tls,
+  to_render_tree cx_ist cx_dr (set_overflow cfg_plain) fx_dom3 = Ok tree ->
+  lines_from_read cx_ist cx_dr (set_overflow cfg_plain) fx_dom3 1 = Ok tls ->
+  let O := flat_map mline tls in
+  projr O = projr (mstream_tree plain_deco tree) /\
+  (forall a name b, strip (mstream_min plain_deco tree) = a ++ inl name :: b ->
+     exists a' b', O = a' ++ inl name :: b' /\ projr a' = projr a /\ projr b' = projr b).
+Proof.
+  intros tree tls Ht H.
+  assert (Hn : no_table tree = true).
+  { vm_compute in Ht. injection Ht as <-. vm_compute. reflexivity. }
+  destruct (c14_markers_any_overflow cx_ist cx_dr (set_overflow cfg_plain) fx_dom3 1 tree tls
+              prefix_made_plain Ht Hn H) as (A & _ & C & _).
+  split; [exact A|exact C].
+Qed.
+
 Print Assumptions node_cm_all.
 Print Assumptions fx1_theorem.
 Print Assumptions fx_dom_theorem.
 Print Assumptions marker_kept_after_overflowing_char.
-Print Assumptions marker_lost_after_overflowing_char_and_space.
+Print Assumptions marker_kept_after_overflowing_char_and_space.
+Print Assumptions fx3_any_overflow_theorem.
+Print Assumptions fx_dom3_any_overflow_theorem.
 
 (* ================================================================== *)
 (* SUMMARY                                                              *)
@@ -1815,13 +2026,16 @@ Print Assumptions marker_lost_after_overflowing_char_and_space.
                            block satisfies WB (allow_overflow = false, the current line is empty or
                            holds a Str - never marker-only -, no empty Str in the pending word).
                            Holds for sub_new / new_sub_renderer; kept by every operation.
+     Jx x s             := the invariant sections 4-6 are proved for: pfc s, and if x = true the
+                           rest of J.  Jx true s <-> J s (J_Jx), Jx false s <-> pfc s (pfc_Jx).
 
    WHAT THE MODEL DOES WITH MARKERS (all proved as lemmas of sections 3-4)
      - record_frag_start appends the marker to the stream (record_frag_start_opM), text is
        appended behind it (add_inline_text_opM): nothing ever moves across a character.
      - flush_wrapping keeps the stream (flush_wrapping_m): the markers that trail the last text
        of the word (the whole word when it has no text) move to pending_frags (take_frags_m),
-       all others are on the lines (into_lines_m - needs WB, see the remaining finding).
+       all others are on the lines or - the markers left alone on the unfinished last line - go
+       to pending_frags in front of them (into_lines_markers_m: no invariant needed).
      - add_line puts the waiting markers in front of the next text line (add_line_m).
      - append_subrender / sub_into_lines DROP the markers still waiting in the nested
        sub-renderer (append_subrender_m, sub_into_lines_m): recorded after its last text line.
@@ -1870,26 +2084,30 @@ Print Assumptions marker_lost_after_overflowing_char_and_space.
    HYPOTHESES and why
      prefix_made d: as in RenderConserve (prefixes are repeated on every line).
      no_table: not done for tables (see below).
-     J s (render_node theorem only; discharged for render_tree by o_allow_overflow o = false).
-     o_allow_overflow = false:  the former FINDING marker_lost_after_overflowing_char
-       ('<div>世<span id="x"><p>abc</p></span></div>' width 1 overflow gave lines [世] [] [a] [b] [c]
-       without Frag x) is repaired by take_trailing_fragments taking the markers that trail the
-       last text of the word (marker_kept_after_overflowing_char: [世] [<x>] [a] [b] [c]).
-       REMAINING FINDING marker_lost_after_overflowing_char_and_space (confirmed on the
-       implementation with the same probe and a space behind <span id="x">): with overflow
-       allowed, a marker recorded right behind a character wider than the wrapping block and
-       FOLLOWED BY WHITE SPACE before its element starts a new block
-       ('<div>世<span id="x"> <p>abc</p></span></div>') is still lost although the element has
-       visible content: the space flushes the word, flush_word's hard-wrap path leaves the
-       marker alone on the current line, which wb_flush/flush_line does not flush (`is_empty`:
-       no Str) and wb_into_lines throws away.  Without overflow hw_scan never takes a whole
-       piece (hw_scan_rest) and the current line is never marker-only (flush_word_WB).
+     J s (c14_render_node_no_table only; discharged for render_tree by o_allow_overflow o = false);
+       pfc s for c14_render_node_no_table_any_overflow (holds for sub_new / new_sub_renderer).
+     o_allow_overflow = false / c_overflow c = false: NO LONGER NEEDED.  The four theorems above
+       keep the hypothesis (their statements are pinned by Props/C14.v); the versions without it are
+         c14_render_node_no_table_any_overflow   (invariant pfc instead of J)
+         c14_render_tree_no_table_any_overflow
+         c14_lines_from_read_any_overflow
+         c14_markers_any_overflow
+       (all proved from one generic development over the invariant Jx x: x = true gives J, x =
+       false gives pfc; examples fx3_any_overflow_theorem, fx_dom3_any_overflow_theorem).
+       History: FINDING marker_lost_after_overflowing_char ('<div>世<span id="x"><p>abc</p></span>
+       </div>' width 1 overflow gave lines [世] [] [a] [b] [c] without Frag x) was repaired by
+       take_trailing_fragments taking the markers that trail the last text of the word
+       (marker_kept_after_overflowing_char: [世] [<x>] [a] [b] [c]); FINDING
+       marker_lost_after_overflowing_char_and_space (the same with white space behind
+       <span id="x">: the space flushes the word, flush_word's hard-wrap path leaves the marker
+       alone on the current line, which wb_flush/flush_line does not flush and wb_into_lines
+       threw away) is repaired by flush_wrapping calling wb_into_lines_markers and keeping the
+       markers left on the unfinished line in pending_frags
+       (marker_kept_after_overflowing_char_and_space: [世] [<x>] [a] [b] [c]).
 
    NOT PROVED
      - tables (neither raw mode nor side by side): mtree gives [] for ITable and every theorem
        assumes no_table.  (Known finding row_marker_in_empty_first_cell lives there.)
-     - with overflow allowed: the upper bound alone (no marker invented, moved or duplicated)
-       still looks true - only flush_wrapping_m becomes an msub - but is not proved here.
      - the DOM -> render-tree step (see strip_keep above).
      - the line-level placement ("on the same line as the element's first character"): the
        stream fixes the position among the characters, not the line: a marker recorded when the
